@@ -1,95 +1,96 @@
 /* C03.dir.run_limits: get_conseq_entry_count (lib/sqfs/src/dir_writer.c),
- * every list (any length, the loop never looks past node 256), every field
- * value, every start offset. Loop closed by a loop contract
- * (contracts/loops/C03.tbl). The list is laid out in an index of DR_N typed
- * nodes only so that the invariant can say "it is the count-th node"; the
- * function itself only follows ->next and compares with NULL.
+ * every list, every field value, every start offset.
  *
- *  C03.dir.run_limits.count       non-empty list => 1 <= c <= 256 (c <= length)
+ * The loop leaves after at most SQFS_MAX_DIR_ENT (256, a compile-time
+ * constant of the code) counted entries, so it is unwound 257 times with the
+ * unwinding assertion on; a list of 257 typed nodes of which the first n
+ * (symbolic, 0..257) are linked presents every list: the function never looks
+ * past the 256th node and uses no address but for following ->next and the
+ * NULL test. (A loop contract over a symbolic position in a 257-node list did
+ * not finish: > 10 min / 20 GB; plain unwinding keeps every pointer concrete.)
+ *
+ *  C03.dir.run_limits.count       non-empty list => 1 <= c <= 256, c <= length
  *  C03.dir.run_limits.same_block  the c entries share inode_ref >> 16
  *  C03.dir.run_limits.delta_fits  head number + (s16)delta reproduces the
- *                                 entry's inode number (delta in +-32767)
+ *                                 entry's inode number, delta in +-32767
  *  C03.dir.run_limits.one_block   c >= 2 => header end + entries stay inside
- *                                 one metadata block (8192)
+ *                                 one metadata block (8192 bytes)
+ *  C03.dir.run_limits.maximal     the run only stops for one of the four
+ *                                 reasons (end of list, 256, block, delta/size)
  * requires: 1 <= name_len <= 2^40 (no size_t wrap in the byte count).
  */
 #include <stdlib.h>
 #include "verif.h"
+#include "lib/sqfs/src/dir_writer.c"
 
 #ifndef DR_N
 #define DR_N 257
 #endif
-struct sqfs_dir_entry_t;
-struct sqfs_dir_entry_t *g_dr_node[DR_N + 1];
-size_t g_dr_pre[DR_N + 1];
-size_t g_dr_n, g_dr_w, g_dr_size0;
-uint64_t g_dr_wref; /* fields of the witness node */
-uint32_t g_dr_wnum;
-
-#include "lib/sqfs/src/dir_writer.c"
 
 typedef struct { sqfs_dir_entry_t e; char name[8]; } dr_node_t;
-static dr_node_t *nodes[DR_N]; /* one typed object per list node */
+static dr_node_t nodes[DR_N];
+static size_t pre[DR_N + 1];
 
 void harness(void)
 {
 	sqfs_u32 offset = verif_nd_u32("offset");
-	size_t i, c;
+	size_t n = verif_nd_size("n"), w = verif_nd_size("w");
+	size_t i, c, size0;
 
-	g_dr_n = verif_nd_size("n");
-	VERIF_ASSUME(g_dr_n <= DR_N);
-	g_dr_w = verif_nd_size("w");
+	VERIF_ASSUME(n <= DR_N);
 
-	g_dr_pre[0] = 0;
+	pre[0] = 0;
 	for (i = 0; i < DR_N; ++i) {
-		nodes[i] = malloc(sizeof(dr_node_t));
-		VERIF_ASSUME(nodes[i] != NULL);
-		nodes[i]->e.inode_ref = verif_nd_u64("ref");
-		nodes[i]->e.inode_num = verif_nd_u32("num");
-		nodes[i]->e.type = verif_nd_u16("type");
-		nodes[i]->e.name_len = verif_nd_size("len");
-		VERIF_ASSUME(nodes[i]->e.name_len >= 1 &&
-			     nodes[i]->e.name_len <= ((size_t)1 << 40));
-		g_dr_node[i] = i < g_dr_n ? &nodes[i]->e : NULL;
-		if (i == g_dr_w) {
-			g_dr_wref = nodes[i]->e.inode_ref;
-			g_dr_wnum = nodes[i]->e.inode_num;
-		}
-		g_dr_pre[i + 1] = g_dr_pre[i] + sizeof(sqfs_dir_node_t) +
-			nodes[i]->e.name_len;
+		nodes[i].e.inode_ref = verif_nd_u64("ref");
+		nodes[i].e.inode_num = verif_nd_u32("num");
+		nodes[i].e.type = verif_nd_u16("type");
+		nodes[i].e.name_len = verif_nd_size("len");
+		VERIF_ASSUME(nodes[i].e.name_len >= 1 &&
+			     nodes[i].e.name_len <= ((size_t)1 << 40));
+		nodes[i].e.next = (i + 1 < n) ? &nodes[i + 1 < DR_N ? i + 1 : 0].e : NULL;
+		pre[i + 1] = pre[i] + sizeof(sqfs_dir_node_t) +
+			nodes[i].e.name_len;
 	}
-	g_dr_node[DR_N] = NULL;
-	for (i = 0; i + 1 < DR_N; ++i)
-		nodes[i]->e.next = g_dr_node[i + 1];
-	/* node 256 is never followed: its next pointer is arbitrary */
-	nodes[DR_N - 1]->e.next = verif_nd_bool("more") ? &nodes[0]->e : NULL;
+	/* the 257th node is never followed: its next pointer is arbitrary */
+	if (verif_nd_bool("more"))
+		nodes[DR_N - 1].e.next = &nodes[0].e;
 
-	g_dr_size0 = ((size_t)offset + sizeof(sqfs_dir_header_t)) %
+	size0 = ((size_t)offset + sizeof(sqfs_dir_header_t)) %
 		SQFS_META_BLOCK_SIZE;
 
-	c = get_conseq_entry_count(offset, g_dr_node[0]);
+	c = get_conseq_entry_count(offset, n > 0 ? &nodes[0].e : NULL);
 
-	VERIF_ASSERT(c <= 256 && c <= g_dr_n && (g_dr_n == 0 || c >= 1),
-		     "C03.dir.run_limits.count");
-	if (g_dr_w < c) {
-		sqfs_u32 d = nodes[g_dr_w]->e.inode_num - nodes[0]->e.inode_num;
+	VERIF_ASSERT(c <= SQFS_MAX_DIR_ENT && c <= 256 && c <= n &&
+		     (n == 0 || c >= 1), "C03.dir.run_limits.count");
+	if (w < c) {
+		sqfs_u32 d = nodes[w].e.inode_num - nodes[0].e.inode_num;
 		sqfs_s16 d16 = (sqfs_s16)(sqfs_u16)d;
 
-		VERIF_ASSERT((nodes[g_dr_w]->e.inode_ref >> 16) ==
-			     (nodes[0]->e.inode_ref >> 16),
+		VERIF_ASSERT((nodes[w].e.inode_ref >> 16) ==
+			     (nodes[0].e.inode_ref >> 16),
 			     "C03.dir.run_limits.same_block");
-		VERIF_ASSERT(nodes[0]->e.inode_num + (sqfs_u32)(sqfs_s32)d16 ==
-			     nodes[g_dr_w]->e.inode_num && d16 != -32768,
+		VERIF_ASSERT(nodes[0].e.inode_num + (sqfs_u32)(sqfs_s32)d16 ==
+			     nodes[w].e.inode_num && d16 != -32768,
 			     "C03.dir.run_limits.delta_fits");
 	}
 	if (c >= 2)
-		VERIF_ASSERT(g_dr_size0 + g_dr_pre[c] <= SQFS_META_BLOCK_SIZE,
+		VERIF_ASSERT(size0 + pre[c] <= SQFS_META_BLOCK_SIZE,
 			     "C03.dir.run_limits.one_block");
+	if (c < n && c < 256 && c >= 1) {
+		sqfs_u32 d = nodes[c].e.inode_num - nodes[0].e.inode_num;
 
-	VERIF_COVER(c == 256);
-	VERIF_COVER(c == 1 && g_dr_n > 1);
-	VERIF_COVER(c == 3 && g_dr_n == 3);
+		VERIF_ASSERT((nodes[c].e.inode_ref >> 16) !=
+			     (nodes[0].e.inode_ref >> 16) ||
+			     (sqfs_s32)d > 32767 || (sqfs_s32)d < -32767 ||
+			     size0 + pre[c + 1] > SQFS_META_BLOCK_SIZE,
+			     "C03.dir.run_limits.maximal");
+	}
+
+	VERIF_COVER(c == 256 && n == 257);
+	VERIF_COVER(c == 1 && n > 1);
+	VERIF_COVER(c == 3 && n == 3);
 	VERIF_COVER(c == 0);
-	VERIF_COVER(c >= 2 && g_dr_w == c - 1 &&
-		    nodes[g_dr_w]->e.inode_num < nodes[0]->e.inode_num);
+	VERIF_COVER(c >= 2 && w == c - 1 &&
+		    nodes[w].e.inode_num < nodes[0].e.inode_num);
+	VERIF_COVER(c == 2 && n > 2 && size0 + pre[3] > SQFS_META_BLOCK_SIZE);
 }
